@@ -565,6 +565,38 @@ pub fn gen(prop: &str, tier: &str, seed: u64) -> Out {
                     }
                 }
             }
+            // texts malformed by construction: a strict rendering with one structural damage that no
+            // documented relaxation covers
+            for _ in 0..scale(tier, 600, 20000) {
+                let v = gen_value(&mut r, &fc, 0);
+                if has_nan(&v) || !matches!(v, Value::Array(_) | Value::Object(_)) { continue; }
+                let mut t = String::new();
+                render_json(&mut r, &v, Style::Strict, &mut t);
+                let b = t.as_bytes();
+                // structural positions outside strings
+                let mut pos_close = vec![]; let mut pos_colon = vec![]; let mut pos_comma = vec![];
+                let (mut in_str, mut esc) = (false, false);
+                for (i, c) in b.iter().enumerate() {
+                    if in_str { if esc { esc = false; } else if *c == b'\\' { esc = true; } else if *c == b'"' { in_str = false; } continue; }
+                    match c { b'"' => in_str = true, b']' | b'}' => pos_close.push(i), b':' => pos_colon.push(i), b',' => pos_comma.push(i), _ => {} }
+                }
+                let mut bad: Vec<Vec<u8>> = vec![];
+                if !pos_close.is_empty() {
+                    let i = *r.pick(&pos_close);
+                    // trailing comma: only if something precedes the closer
+                    let prev = b[..i].iter().rev().find(|c| !c.is_ascii_whitespace());
+                    if prev.is_some() && !matches!(prev, Some(b'[') | Some(b'{') | Some(b',')) { let mut x = b.to_vec(); x.insert(i, b','); bad.push(x); }
+                    let mut x = b.to_vec(); x.remove(i); bad.push(x);                    // missing closer
+                    let mut x = b.to_vec(); x[i] = if b[i] == b']' { b'}' } else { b']' }; bad.push(x);   // wrong closer
+                }
+                if !pos_colon.is_empty() { let i = *r.pick(&pos_colon); let mut x = b.to_vec(); x.insert(i, b':'); bad.push(x); let mut x = b.to_vec(); x[i] = b','; bad.push(x); }
+                if !pos_comma.is_empty() { let i = *r.pick(&pos_comma); let mut x = b.to_vec(); x.insert(i, b','); bad.push(x); let mut x = b.to_vec(); x[i] = b' '; bad.push(x); }
+                { let mut x = b.to_vec(); x.extend_from_slice(b" x"); bad.push(x); }
+                for x in bad { o.push(format!("jreject {}", hex(&x))); o.push(format!("jparse {}", hex(&x))); o.stat("text:malformed-by-construction"); }
+            }
+            for t in ["[1,]", "{\"a\":1,}", "[{\"a\":{\"b\":null,}}]", "01", "1.", ".5", "+1", "\"\\x\"", "nul", "", " ", "1 2", "[1 2]", "-", "1e", "\"\\u004\"", "\"abc", "\"\\uD83D\\uDE0\"", "{\"a\":1,,}", "[,]", "{,}", "{\"a\"}", "{1:2}", "[1}", "tru", "--1", "1e+", "0x10", "'a'"] {
+                o.push(format!("jreject {}", hex(t.as_bytes())));
+            }
             // decimal spellings: 1..19 significant digits, with / without fraction and exponent; the
             // reference is std's correctly rounded str::parse (and the exact big-Nat model in Lean)
             for _ in 0..scale(tier, 2500, 80000) {
@@ -774,7 +806,7 @@ pub fn gen(prop: &str, tier: &str, seed: u64) -> Out {
             use crate::ops_chain::{parse_op, step};
             let small = DocCfg { max_depth: 2, max_fanout: 3, nonfinite: false, long_strings: false };
             let fc = c.clone().finite();
-            for _ in 0..scale(tier, 700, 20000) {
+            for _ in 0..scale(tier, 1500, 30000) {
                 let v0 = if r.chance(1, 12) { gen_scalar(&mut r, &fc) } else { gen_value(&mut r, &fc, 0) };
                 o.doc_stats(&v0);
                 let start = v0.to_vec();
@@ -805,7 +837,7 @@ pub fn gen(prop: &str, tier: &str, seed: u64) -> Out {
                     let idx = |r: &mut Rng| -> i64 { match r.below(8) { 0 => n, 1 => -n - 1, 2 => -n, 3 => *r.pick(&[i32::MIN as i64, i32::MAX as i64]), _ => if n > 0 { r.range(-n, n) } else { 0 } } };
                     let is_obj = matches!(v, Value::Object(_));
                     let is_arr = matches!(v, Value::Array(_));
-                    let tok = match r.below(22) {
+                    let tok = match r.below(26) {
                         0 | 1 => format!("cat:{}:{}", arg(&mut r, if is_obj { Some(true) } else if is_arr { Some(false) } else { None }), if r.chance(1, 2) { "l" } else { "r" }),
                         2 => format!("dn:{}", hex(some_key(&mut r).as_bytes())),
                         3 => format!("di:{}", idx(&mut r)),
@@ -822,7 +854,7 @@ pub fn gen(prop: &str, tier: &str, seed: u64) -> Out {
                         17 => format!("{}:{}", if r.chance(1, 2) { "in" } else { "ex" }, arg(&mut r, Some(false))),
                         18 => { let k = r.below(4); if k == 0 { "wa:[]".to_string() } else { format!("wa:{}", (0..k).map(|_| arg(&mut r, None)).collect::<Vec<_>>().join("|")) } }
                         19 => { let k = r.below(4); if k == 0 { "wo:[]".to_string() } else { format!("wo:{}", (0..k).map(|_| format!("{}={}", hex(gen_key(&mut r).as_bytes()), arg(&mut r, None))).collect::<Vec<_>>().join("|")) } }
-                        20 => format!("sf:{}", hex(crate::gen_text::gen_doc_path(&mut r, &v).as_bytes())),
+                        20 | 22 | 23 => format!("sf:{}", hex(crate::gen_text::gen_doc_path(&mut r, &v).as_bytes())),
                         _ => format!("sa:{}", hex(crate::gen_text::gen_doc_path(&mut r, &v).as_bytes())),
                     };
                     o.stat(&format!("chainop:{}", tok.split(':').next().unwrap_or("")));
